@@ -5,5 +5,5 @@ CONSTANTS Nib = {0, 1}
           Pad = 1
           MaxKeys = 2
           EmitRows = TRUE
-INVARIANTS CharacterInv MoreInv ProofInv NoProofInv Emit
+INVARIANTS CharacterInv MoreInv ProofInv NoProofInv AlgInv Emit
 CHECK_DEADLOCK FALSE
